@@ -29,9 +29,9 @@ import torch
 from tangermeme.ism import saturation_mutagenesis
 
 SCOPE = {
-    'quick': 'alphabets 2-5; exhaustive: lengths 1-5 x every window 0<=start<end<=L x {2-D tensor, 3-D tensor, tuple} outputs '
-             '(raw; attribution with target/hypothetical rotated) plus every negative-end spelling (end=-1..-L, default call) for lengths 1-4; '
-             '330 seeded random cases: lengths 1-30, 1-3 examples, batch sizes in 1..A*W+1 (edges 1, A, W, A*W-1, A*W, A*W+1), '
+    'quick': 'alphabets 2-5; exhaustive: lengths 1-6 x every window 0<=start<end<=L x {2-D tensor, 3-D tensor, tuple} outputs '
+             '(raw; attribution with target/hypothetical rotated) plus every negative-end spelling (end=-1..-L, default call) for lengths 1-5; '
+             '600 seeded random cases: lengths 1-30, 1-3 examples, batch sizes in 1..A*W+1 (edges 1, A, W, A*W-1, A*W, A*W+1), '
              'recording and integer relu models, tensor/tuple outputs with 0-2 trailing dims, 0-2 per-example args of rank 1-3, '
              'int/negative int/slice/stepped slice/None targets, raw / attribution / hypothetical, int8/float32/float64 X',
     'thorough': 'alphabets 2-5; exhaustive: lengths 1-8 x every window x 3 output kinds x {raw, attr, hyp} plus every negative-end '
@@ -335,8 +335,8 @@ def _rand_target(g, T):
 def run(rep):
     thorough = rep.tier == 'thorough'
     g = rep.rng
-    maxL_ex = 8 if thorough else 5
-    maxL_neg = 8 if thorough else 4
+    maxL_ex = 8 if thorough else 6
+    maxL_neg = 8 if thorough else 5
     rot = 0
     # -- exhaustive small scope: every window, every output kind
     for A in range(2, 6):
@@ -387,7 +387,7 @@ def run(rep):
                     rot += 1
     rep.mark_exhaustive('every negative-end spelling and the default call for lengths 1-%d' % maxL_neg)
     # -- seeded random larger cases
-    n_rand = 6000 if thorough else 330
+    n_rand = 6000 if thorough else 600
     for k in range(n_rand):
         if rep.out_of_time():
             rep.note('time budget reached after %d random cases' % k)
